@@ -200,3 +200,19 @@ func WriteDigests(path string, ds []uint64) {
 		Fatalf("digests: %v", err)
 	}
 }
+
+func ReadDigests(path string) []uint64 {
+	b, err := os.ReadFile(path)
+	if err != nil {
+		Fatalf("digests: %v", err)
+	}
+	out := make([]uint64, 0, len(b)/8)
+	for i := 0; i+8 <= len(b); i += 8 {
+		var d uint64
+		for k := 0; k < 8; k++ {
+			d |= uint64(b[i+k]) << (8 * k)
+		}
+		out = append(out, d)
+	}
+	return out
+}
